@@ -74,7 +74,8 @@ class SymEval:
                 r = P_div(a, b)
                 if r is not None and b.is_const():
                     return P.s(f"floor({r!r})") if not all(v.denominator == 1 for v in r.t.values()) else r
-                return P.s(f"floor({astq.src(e, 60)})")
+                # a // b with a symbolic divisor: the quotient of two counts, read like int(a / b) above (exact when b divides a)
+                return r if r is not None else P.s(f"floor({astq.src(e, 60)})")
             if isinstance(e.op, ast.Pow):
                 if b.is_const():
                     return P_pow(a, b.const())
